@@ -319,10 +319,32 @@ def run(ctx):
 
   # ---------------- leg T (3): RepeatableIterator
   rtrs = []
-  for kind in ('list', 'tuple', 'gen', 'range', 'dict', 'str', 'map', 'bytes'):
+  class Rotating:
+    """An iterable (not an iterator) whose every iter() starts one item further: a view with per-iteration order."""
+
+    def __init__(self, items):
+      self.items, self.calls = items, 0
+
+    def __iter__(self):
+      k = self.calls % max(1, len(self.items))
+      self.calls += 1
+      return iter(self.items[k:] + self.items[:k])
+
+  class OneShot:
+    """An iterable wrapping a one-shot stream: only its first iter() yields anything."""
+
+    def __init__(self, items):
+      self.stream = (x for x in items)
+
+    def __iter__(self):
+      return self.stream
+
+  import collections  # pylint: disable=g-import-not-at-top
+  for kind in ('list', 'tuple', 'gen', 'range', 'dict', 'str', 'map', 'bytes', 'rotating', 'oneshot', 'ndarray', 'deque'):
     for length in (0, 1, 2, 5, 9):
       items = list(range(1, length + 1))
-      base = {'list': items, 'tuple': tuple(items), 'gen': (x for x in items), 'range': range(1, length + 1),
+      base = {'rotating': Rotating(items), 'oneshot': OneShot(items), 'ndarray': np.array(items, np.int64), 'deque': collections.deque(items),
+              'list': items, 'tuple': tuple(items), 'gen': (x for x in items), 'range': range(1, length + 1),
               'dict': {x: None for x in items}, 'str': ''.join(chr(64 + x) for x in items), 'map': map(int, items),
               'bytes': bytes(items)}[kind]
       dec = (lambda v: ord(v) - 64) if kind == 'str' else int
